@@ -395,6 +395,13 @@ func c13(c *Ctx) {
 	uh := "fuse.(*LockHandle).unlockHalt"
 	c.ExpectAll("fuse/acquire-id", c.CallArgs(lw, p.Calls("litefs.(*DB).AcquireRemoteHaltLock"), 2), pat("p0.haltLockID"), 1, "the lock file handle acquires with its own stable lock id", "repeated acquire requests with the same lock ID return the same lock: an interrupted and retried FUSE call must reuse the id")
 	c.ExpectAll("fuse/release-id", c.CallArgs(uh, p.Calls("litefs.(*DB).ReleaseRemoteHaltLock"), 2), pat("p0.haltLockID"), 1, "... and releases with the same id", "")
+	{
+		var vals []string
+		for _, in := range Instrs(c.F("fuse.newLockHandle"), p.Writes("fuse.LockHandle.haltLockID")) {
+			vals = append(vals, fieldStoreVal(p, in))
+		}
+		c.ExpectAll("fuse/id-is-random", vals, `(math/rand|math/rand/v2|crypto/rand)\..*`, 1, "the handle's lock id is drawn from a random source", "the primary identifies the holder cluster-wide by this id alone (same-id requests are answered as retries; /tx and release match by id): ids that are unique only within one process collide between replicas")
+	}
 	c.OnlyIn("fuse/id-assigned-once", p.Writes("fuse.LockHandle.haltLockID"), []string{pat("fuse.newLockHandle")}, 1, "the handle's lock id is assigned only when the handle is created", "")
 	{
 		var got []string
